@@ -534,7 +534,7 @@ func cmdReplay(args []string) {
 	}
 	r := rr[0]
 	ev := r.Events
-	if len(ev) > 200 {
+	if len(ev) > 200 && os.Getenv("VERIF_FULL") != "1" {
 		ev = ev[len(ev)-200:]
 	}
 	for _, e := range ev {
